@@ -75,6 +75,10 @@ type queryObs struct {
 	Durable []int64 `json:"durable"` // durable height when each value was read
 	Panic   string  `json:"panic,omitempty"`
 	Live    bool    `json:"live,omitempty"` // .store query that fell back to the live multistore
+	SawView bool    `json:"saw_view"`       // the query loaded a view (read the commit info of its height through it)
+	StartH  int64   `json:"start_height"`   // published height when the query was issued
+	SeqDur  []int64 `json:"-"`
+	judged  bool
 }
 
 type world struct {
@@ -90,7 +94,7 @@ type world struct {
 	cerr   string
 }
 
-var reKV = regexp.MustCompile(`([mb])=(-?[0-9]+)`)
+var reKV = regexp.MustCompile(`([mbs])=(-?[0-9]+)`)
 
 func newWorld(cfg config) *world {
 	w := &world{cfg: cfg, s: NewSched()}
@@ -106,6 +110,9 @@ func newWorld(cfg config) *world {
 			w.s.Gate(point)
 			if w.q != nil && strings.HasPrefix(point, "q.read") {
 				w.q.Durable = append(w.q.Durable, w.g.DurableVersion())
+			}
+			if w.q != nil && point == "n.ante" && w.s.current() == w.qproc {
+				w.q.SeqDur = append(w.q.SeqDur, w.g.DurableVersion())
 			}
 		}})
 	if err != nil {
@@ -138,7 +145,7 @@ func (w *world) commitLoop() {
 }
 
 func (w *world) startQuery(kind, ord string) {
-	q := &queryObs{Kind: kind, Ord: ord}
+	q := &queryObs{Kind: kind, Ord: ord, StartH: w.p.App.LastBlockHeight()}
 	w.q = q
 	seenC, seenD := false, false
 	want := func(pt string) bool {
@@ -148,6 +155,7 @@ func (w *world) startQuery(kind, ord string) {
 				return false
 			}
 			seenC = true
+			q.SawView = true
 			return true
 		case strings.HasPrefix(pt, "q."):
 			return true
@@ -207,12 +215,21 @@ func (w *world) startQuery(kind, ord string) {
 		q.Raw = string(data)
 		for _, m := range reKV.FindAllStringSubmatch(q.Raw, -1) {
 			n, _ := strconv.ParseInt(m[2], 10, 64)
-			q.Tags = append(q.Tags, n)
-			if m[1] == "m" {
+			switch m[1] {
+			case "m":
 				q.Stores = append(q.Stores, "main")
-			} else {
+			case "b":
 				q.Stores = append(q.Stores, "base")
+			default:
+				// the sequence the simulation's ante handler saw (main store): one bump per delivered block
+				// transaction, so the committed value at height h is h-1
+				n++
+				q.Stores = append(q.Stores, "seq")
+				if len(q.SeqDur) > 0 {
+					q.Durable = append(q.Durable, q.SeqDur[0])
+				}
 			}
+			q.Tags = append(q.Tags, n)
 		}
 	})
 }
@@ -240,6 +257,32 @@ type outcome struct {
 	queries           int
 	qok               int
 	mixedSeen         bool
+	checktx           int
+	all               [][2]string // every query-level violation of the schedule (key, what): a schedule goes on after one,
+	// so that a class that is already known cannot hide a different one later in the same schedule
+}
+
+// stash sets a query-level violation aside (one per distinct key) so that the schedule can go on.
+func (o *outcome) stash() {
+	if o.violKey == "" {
+		return
+	}
+	for _, v := range o.all {
+		if v[0] == o.violKey {
+			o.violKey, o.violWhat = "", ""
+			return
+		}
+	}
+	o.all = append(o.all, [2]string{o.violKey, o.violWhat})
+	o.violKey, o.violWhat = "", ""
+}
+
+func (o *outcome) keys() string {
+	ks := []string{}
+	for _, v := range o.all {
+		ks = append(ks, v[0])
+	}
+	return strings.Join(ks, "|")
 }
 
 // expected gate after each action of the schedule
@@ -252,14 +295,27 @@ func (w *world) judge(st mbt.Step, o *outcome, refHashes []string) {
 		fmt.Sprintf("published height %d, durable %d, query snapshot %d", w.p.App.LastBlockHeight(), w.g.DurableVersion(), w.g.LastSnapshotVersion()))
 }
 
-// judgeObs evaluates the property on the values one real query returned.
+// judgeObs evaluates the property on the values one real query returned (st == nil: no model step to
+// compare with). Failing classes are keyed by what is observed: the API, which values disagree, and
+// whether the query ever loaded a view (a query that read without one was served by live state).
 func judgeObs(q *queryObs, qproc *Proc, snapshots bool, st mbt.Step, o *outcome, where string) {
+	if q.judged {
+		return
+	}
+	q.judged = true
 	o.queries++
 	if qproc.Panic != nil {
 		o.violKey, o.violWhat = "C28:query-panic:"+q.Kind, fmt.Sprintf("query %s panicked: %v | %s", q.Kind, qproc.Panic, mbt.ShortStack(qproc.Stack))
 		return
 	}
-	if !q.Err {
+	view := ""
+	if !q.SawView {
+		view = ":no-snapshot-view:at-height-1"
+		if q.StartH != 1 {
+			view = ":no-snapshot-view:at-height-2+"
+		}
+	}
+	if !q.Err && len(q.Tags) > 0 {
 		o.qok++
 		mixed := false
 		for i := range q.Tags {
@@ -267,41 +323,58 @@ func judgeObs(q *queryObs, qproc *Proc, snapshots bool, st mbt.Step, o *outcome,
 				mixed = true
 			}
 			if i < len(q.Durable) && q.Tags[i] > q.Durable[i] && o.violKey == "" {
-				o.violKey = "C28:uncommitted-read:" + q.Kind
-				o.violWhat = fmt.Sprintf("%s query read %s=%d while the durable height was %d (%s; %s)", q.Kind, q.Stores[i], q.Tags[i], q.Durable[i], q.Raw, where)
+				what := "block-in-progress-write"
+				if q.Stores[i] == "seq" {
+					what = "checktx-ante-write"
+				}
+				o.violKey = "C28:uncommitted-visible:" + q.Kind + ":" + what + view
+				o.violWhat = fmt.Sprintf("%s query read %s at height-equivalent %d while the durable height was %d (%s; view loaded: %v; %s)",
+					q.Kind, q.Stores[i], q.Tags[i], q.Durable[i], q.Raw, q.SawView, where)
 			}
 		}
-		if mixed && snapshots && o.violKey == "" {
+		if mixed && (snapshots || !q.SawView) && o.violKey == "" {
 			cls := "unordered"
 			var mt, bt int64 = -1, -1
 			for i, st := range q.Stores {
-				if st == "main" {
+				switch st {
+				case "main":
 					mt = q.Tags[i]
-				} else {
+				case "base":
 					bt = q.Tags[i]
 				}
 			}
-			if mt >= 0 && bt >= 0 && mt < bt {
+			switch {
+			case !q.SawView:
+				cls = view[1:] // read without any view: not the height/snapshot race
+			case mt >= 0 && bt >= 0 && mt < bt:
 				cls = "versioned-store-behind-snapshot" // main read at the separately resolved height, base at the snapshot's
-			} else if mt > bt {
+			case mt > bt && bt >= 0:
 				cls = "versioned-store-ahead-of-snapshot"
 			}
 			o.violKey = "C28:mixed-heights:" + q.Kind + ":" + cls
-			o.violWhat = fmt.Sprintf("one %s query returned values of different heights: %s = heights %v of %v (%s)", q.Kind, q.Raw, q.Tags, q.Stores, where)
+			o.violWhat = fmt.Sprintf("one %s query returned values of different heights: %s = heights %v of %v (view loaded: %v; %s)", q.Kind, q.Raw, q.Tags, q.Stores, q.SawView, where)
 		}
 		if mixed {
 			o.mixedSeen = true
 		}
 	}
+	if st == nil {
+		return
+	}
 	// model prediction (code structure): guidance only
 	expErr := st.Str("res") == "err"
-	var expTags []int64
+	var expTags, gotTags []int64
 	if rs, ok := st["reads"].([]any); ok {
 		for _, r := range rs {
 			expTags = append(expTags, int64(mbt.Step(r.(map[string]any)).Int("tag")))
 		}
 	}
-	if expErr != q.Err || (!q.Err && !mbt.Eq(q.Tags, expTags)) {
+	for i, t := range q.Tags {
+		if q.Stores[i] != "seq" {
+			gotTags = append(gotTags, t)
+		}
+	}
+	if expErr != q.Err || (!q.Err && !mbt.Eq(gotTags, expTags)) {
 		o.qdrift++
 	}
 }
@@ -314,12 +387,23 @@ func replay(cfg config, beh []mbt.Step, refHashes []string) (o outcome, obs []qu
 		if o.violKey == "" && pubKey != "" {
 			o.violKey, o.violWhat = pubKey, pubWhat
 		}
+		o.stash()
+		if len(o.all) > 0 {
+			o.violKey, o.violWhat = o.all[0][0], o.all[0][1]
+		}
 	}()
 	for k, st := range beh {
 		act := st.Act()
 		var p *Proc
 		switch {
 		case act == "QStart" || act == "QResolve":
+			if w.q != nil && !w.q.judged { // the previous query left the model's gate sequence: finish and judge it first
+				if err := w.s.Finish(w.qproc); err == nil {
+					w.judge(nil, &o, refHashes)
+					obs = append(obs, *w.q)
+					o.stash()
+				}
+			}
 			w.startQuery(st.Str("kind"), ordOf(st["ord"]))
 			p = w.qproc
 		case strings.HasPrefix(act, "Q"):
@@ -352,15 +436,19 @@ func replay(cfg config, beh []mbt.Step, refHashes []string) (o outcome, obs []qu
 			return
 		}
 		if want, ok := gateAfter[act]; ok && !p.Done && p.At != want {
-			o.drift = fmt.Sprintf("step %d %s: process at gate %q, expected %q", k, act, p.At, want)
-			return
+			if o.drift == "" {
+				o.drift = fmt.Sprintf("step %d %s: process at gate %q, expected %q", k, act, p.At, want)
+			}
+			if p != w.qproc {
+				return
+			}
+			// a query that left the model's gate sequence is not a reason to stop judging: it goes on one
+			// gate per scheduled step and its results are evaluated like any other query's
 		}
 		if act == "QEnd" {
 			w.judge(st, &o, refHashes)
 			obs = append(obs, *w.q)
-			if o.violKey != "" {
-				return
-			}
+			o.stash()
 		}
 		if act == "CSetHeader" {
 			n := len(w.hashes)
@@ -368,6 +456,15 @@ func replay(cfg config, beh []mbt.Step, refHashes []string) (o outcome, obs []qu
 				o.violKey = "C28:interference:commit-hash"
 				o.violWhat = fmt.Sprintf("commit %d produced hash %s, the query-free run %v", n, w.hashes[n-1], refHashes)
 				return
+			}
+			// Commit has returned: the mempool connection (same mutex as consensus) checks its pending
+			// transactions; their ante writes (sequence bump) stay in checkState until the next Commit
+			for i := 0; i < st.Int("checktx"); i++ {
+				if r := w.p.App.CheckTx(abci.RequestCheckTx{Tx: counterTx(7)}); r.Error != nil {
+					o.drift = fmt.Sprintf("step %d CheckTx: %v", k, r.Error)
+					return
+				}
+				o.checktx++
 			}
 		}
 		if len(w.g.AfterClose) > 0 {
@@ -387,6 +484,14 @@ func replay(cfg config, beh []mbt.Step, refHashes []string) (o outcome, obs []qu
 			if (cfg.Snapshots || f != "snapv") && o.drift == "" && !mbt.Eq(got[f], exp[f]) {
 				o.drift = fmt.Sprintf("step %d %s: projection %s = %v, model %v", k, act, f, got[f], exp[f])
 			}
+		}
+	}
+	if w.q != nil && !w.q.judged && o.violKey == "" {
+		// the schedule ends (or drifted) with a query in flight: let it return and judge what it read
+		if err := w.s.Finish(w.qproc); err == nil {
+			w.judge(nil, &o, refHashes)
+			obs = append(obs, *w.q)
+			o.stash()
 		}
 	}
 	return
@@ -458,7 +563,7 @@ func main() {
 	}
 	ref := reference(cfg)
 	var mu sync.Mutex
-	var steps, replays, queries, qok, qdrift, drifts, mixed, viol, flaky int64
+	var steps, replays, queries, qok, qdrift, drifts, driftViol, checktx, mixed, viol, flaky int64
 	var driftSamples []string
 	reported := map[string]int{}
 	nw := runtime.NumCPU() / 2
@@ -478,23 +583,28 @@ func main() {
 				if o.violKey != "" {
 					// determinism: the failing schedule must reproduce from a fresh application
 					o2, _ := replay(cfg, behs[i], ref)
-					if o2.violKey != o.violKey {
+					if o2.keys() != o.keys() {
 						atomic.AddInt64(&flaky, 1)
-						mbt.Emit(map[string]any{"kind": "flaky", "key": o.violKey, "what": o.violWhat, "second": o2.violKey + " " + o2.drift})
+						mbt.Emit(map[string]any{"kind": "flaky", "key": o.keys(), "what": o.violWhat, "second": o2.keys() + " " + o2.drift})
 						continue
 					}
 					atomic.AddInt64(&viol, 1)
-					mu.Lock()
-					reported[o.violKey]++
-					first := reported[o.violKey] == 1
-					mu.Unlock()
-					if first { // one replay file per failing class; the count goes to the summary
-						mbt.Mismatch(o.violKey, o.violWhat, map[string]any{"cfg": f.Extra, "steps": behs[i], "observed": obs, "hooks": hooksAvailable})
+					for _, v := range o.all {
+						mu.Lock()
+						reported[v[0]]++
+						first := reported[v[0]] == 1
+						mu.Unlock()
+						if first { // one replay file per failing class; the count goes to the summary
+							mbt.Mismatch(v[0], v[1], map[string]any{"cfg": f.Extra, "steps": behs[i], "observed": obs, "hooks": hooksAvailable})
+						}
 					}
 				}
 				mu.Lock()
 				if o.drift != "" {
 					drifts++
+					if o.violKey != "" {
+						driftViol++
+					}
 					if len(driftSamples) < 5 {
 						driftSamples = append(driftSamples, o.drift)
 					}
@@ -508,6 +618,7 @@ func main() {
 				atomic.AddInt64(&queries, int64(o.queries))
 				atomic.AddInt64(&qok, int64(o.qok))
 				atomic.AddInt64(&qdrift, int64(o.qdrift))
+				atomic.AddInt64(&checktx, int64(o.checktx))
 				if i < 2 {
 					mbt.Sample(map[string]any{"schedule": actsOf(behs[i]), "queries": obs})
 				}
@@ -516,7 +627,7 @@ func main() {
 	}
 	wg.Wait()
 	mbt.Summary(map[string]any{"behaviours": len(behs), "replays": replays, "steps": steps, "queries": queries, "queries_ok": qok,
-		"query_drift": qdrift, "gate_drift": drifts, "mixed_queries": mixed, "violating": viol, "flaky": flaky, "drift_samples": driftSamples,
+		"query_drift": qdrift, "gate_drift": drifts, "gate_drift_with_violation": driftViol, "checktx_run": checktx, "mixed_queries": mixed, "violating": viol, "flaky": flaky, "drift_samples": driftSamples,
 		"hooks": hooksAvailable, "ref_hashes": len(ref), "violations_by_key": reported, "stuck_steps": stuckSteps.Load()})
 	mbt.Flush()
 }
@@ -561,7 +672,7 @@ func gnoMain(f *mbt.Flags, cfg config) {
 	}
 	nw := 4
 	var mu sync.Mutex
-	var steps, replays, queries, qok, qdrift, drifts, mixed, viol, flaky int64
+	var steps, replays, queries, qok, qdrift, drifts, driftViol, checktx, mixed, viol, flaky int64
 	var driftSamples []string
 	reported := map[string]int{}
 	var wg sync.WaitGroup
@@ -605,6 +716,9 @@ func gnoMain(f *mbt.Flags, cfg config) {
 				}
 				if o.drift != "" {
 					drifts++
+					if o.violKey != "" {
+						driftViol++
+					}
 					if len(driftSamples) < 5 {
 						driftSamples = append(driftSamples, o.drift)
 					}
@@ -626,7 +740,7 @@ func gnoMain(f *mbt.Flags, cfg config) {
 	}
 	wg.Wait()
 	mbt.Summary(map[string]any{"behaviours": len(pick), "replays": replays, "steps": steps, "queries": queries, "queries_ok": qok,
-		"query_drift": qdrift, "gate_drift": drifts, "mixed_queries": mixed, "violating": viol, "flaky": flaky, "drift_samples": driftSamples,
+		"query_drift": qdrift, "gate_drift": drifts, "gate_drift_with_violation": driftViol, "checktx_run": checktx, "mixed_queries": mixed, "violating": viol, "flaky": flaky, "drift_samples": driftSamples,
 		"hooks": hooksAvailable, "violations_by_key": reported, "stuck_steps": stuckSteps.Load()})
 	mbt.Flush()
 }
